@@ -445,6 +445,112 @@ def two_session_family(ctx, res):
                     res.oracle_failures.append({"input": inp, "what": "ABOR sent by a session with no transfer hit ANOTHER session's %s: that session got %r, data intact: %r, PWD -> %r" % (verb, o["b_replies"], o["b_ok"], o["b_follow"]), "signature": "C14:abor-of-one-session-stops-another's-transfer"})
 
 
+# ------------------------------------------------------------------------------------------------
+# the client's half against a peer that is not aioftp
+# ------------------------------------------------------------------------------------------------
+FOREIGN_STYLES = [None, "hyph", "raw", "indent", "digits", "mixed"]
+
+
+async def _foreign_abort_case(loop, style, when, n_body):
+    """aioftp's Client.abort() against a scripted server (harness/foreign.py) that answers ABOR as RFC 959 says - 426
+    and 226 when something was interrupted, one 226 otherwise - but spells its multi-line replies its own way.  After
+    abort() the session must be in step: PWD names the directory, a listing is the server's truth, a whole download
+    is exact."""
+    import aioftp
+    import foreign
+
+    big = content(4096 * 6 + 77)
+    wd = foreign.ForeignWorld(loop, {"multiline": style, "retr_pause": 0.05})
+    if n_body is not None:
+        spell = wd.server.spell
+        wd.server.spell = lambda code, text, n=None: spell(code, text, n_body)
+    await wd.start()
+    out = {"abort": "ok"}
+    try:
+        wd.set_tree([(("d",), None), (("d", "big.bin"), big), (("d", "s.txt"), b"small"), (("d", "sub"), None)])
+        c = aioftp.Client(path_io_factory=aioftp.MemoryPathIO)
+        await c.connect("127.0.0.1", wd.port)
+        await c.login()
+        await c.change_directory("/d")
+        stream = None
+        if when == "retr":
+            stream = await c.download_stream("big.bin")
+            out["first_block"] = len(await stream.read(4096))
+        elif when == "stor":
+            stream = await c.upload_stream("up.bin")
+            await stream.write(big[:5000])
+        elif when == "after-retr":
+            async with c.download_stream("s.txt") as st:
+                out["first_block"] = len(await st.read())
+        try:
+            await asyncio.wait_for(c.abort(), 30)
+        except Exception as e:  # noqa
+            out["abort"] = "%s: %s" % (type(e).__name__, e)
+        if stream is not None:
+            stream.close()
+        await loop.settle()
+        follow = []
+        try:
+            follow.append(("pwd", str(await asyncio.wait_for(c.get_current_directory(), 30))))
+            lst = await asyncio.wait_for(c.list(), 30)
+            follow.append(("list", sorted((str(p), i["type"]) for p, i in lst if p.name != "up.bin")))
+            async with c.download_stream("big.bin") as st:
+                got = await asyncio.wait_for(st.read(), 60)
+            follow.append(("download", got == big))
+            follow.append(("pwd", str(await asyncio.wait_for(c.get_current_directory(), 30))))
+        except Exception as e:  # noqa
+            follow.append(("raised", "%s: %s" % (type(e).__name__, e)))
+        out["follow"] = follow
+        out["stored_prefix"] = big.startswith(wd.server.tree.get(("d", "up.bin"), b"")) if when == "stor" else True
+        try:
+            c.close()
+        except Exception:
+            pass
+        await loop.settle()
+    finally:
+        try:
+            await wd.stop()
+        except Exception:
+            wd.finish()
+    return out
+
+
+FOREIGN_WANT = [("pwd", "/d"), ("list", [("big.bin", "file"), ("s.txt", "file"), ("sub", "dir")]), ("download", True), ("pwd", "/d")]
+
+
+def _foreign_job(args):
+    try:
+        return simnet.run(_foreign_abort_case, *args, wall_limit=60)
+    except BaseException as e:  # noqa
+        return "HARNESS-ERROR %s: %s" % (type(e).__name__, e)
+
+
+def _foreign_judge(inp, o):
+    if isinstance(o, str):
+        return {"input": inp, "what": "the client never came back from this history (%s)" % o, "signature": "C14:client:foreign-peer-hang"}
+    if o["abort"] != "ok":
+        return {"input": inp, "what": "Client.abort() raised %s although the peer answered ABOR as RFC 959 says" % o["abort"], "signature": "C14:client:abort-raised"}
+    follow = [(k, [(p.rsplit("/", 1)[-1], t) for p, t in v] if k == "list" else v) for k, v in o["follow"]]
+    if follow != FOREIGN_WANT or not o["stored_prefix"]:
+        return {"input": inp, "what": "after abort() against a peer that spells its replies %r the session is out of step: %r (want %r), stored prefix ok: %r" % (
+            inp["reply_spelling"], follow, FOREIGN_WANT, o["stored_prefix"]), "signature": "C14:client:session-out-of-step-after-abort"}
+    return None
+
+
+def foreign_abort_family(ctx, res):
+    for style in FOREIGN_STYLES:
+        for when in ("retr", "stor", "idle", "after-retr"):
+            for n_body in ((None,) if style is None else (1, 2, 3) if ctx.thorough() else (None, 2)):
+                res.cases += 1
+                res.count("client_abort_against_foreign_peer")
+                inp = {"kind": "foreign-peer", "reply_spelling": style, "when": when, "body_lines": n_body}
+                o = _foreign_job((style, when, n_body))
+                res.distinct.add(("foreign", style, when, n_body))
+                f = _foreign_judge(inp, o)
+                if f:
+                    res.oracle_failures.append(f)
+
+
 def _run(ctx, compare=True):
     """thorough tier: the whole sweep again under two more iteration orders of the server's task sets"""
     res = None
@@ -461,6 +567,7 @@ def _run(ctx, compare=True):
             else:
                 res.merge(r)
         two_session_family(ctx, res)
+        foreign_abort_family(ctx, res)
     finally:
         if old is None:
             os.environ.pop("VERIF_TASK_SALT", None)
@@ -547,6 +654,12 @@ def replay(ctx, doc):
         o = _two_job((inp["transfer_of_the_other_session"], inp["when"], inp.get("task_salt", 0)))
         print(o)
         return isinstance(o, str) or o["a_replies"] != [226] or o["b_replies"] != [150, 226] or not o["b_ok"]
+    if inp.get("kind") == "foreign-peer":
+        o = _foreign_job((inp["reply_spelling"], inp["when"], inp.get("body_lines")))
+        print(o)
+        f = _foreign_judge(inp, o)
+        print(f)
+        return f is not None
     if "task_salt" in inp:
         os.environ["VERIF_TASK_SALT"] = str(inp["task_salt"])
     spec, r = _one(inp)
